@@ -11,6 +11,7 @@ import time
 from . import runner
 
 HERE = os.path.dirname(os.path.dirname(os.path.abspath(__file__)))
+EVID = os.environ.get('PVC_EVIDENCE_DIR') or os.path.join(HERE, 'evidence')
 REPO = os.environ.get('PVC_REPO', '/repo')
 NATIVE_PY = '/venv/bin/python'
 
@@ -42,7 +43,7 @@ def run_native(prop, tier, seed):
     mod = os.path.join(HERE, 'native', f'{prop}.py')
     if not os.path.exists(mod):
         return None
-    out = os.path.join(HERE, 'evidence', 'replay', f'{prop}.native.json')
+    out = os.path.join(EVID, 'replay', f'{prop}.native.json')
     os.makedirs(os.path.dirname(out), exist_ok=True)
     env = dict(os.environ, PYTHONPATH=f'{REPO}:{HERE}', MPLBACKEND='Agg', OMP_NUM_THREADS='1', OPENBLAS_NUM_THREADS='1')
     cmd = [NATIVE_PY, os.path.join(HERE, 'native', 'run.py'), prop, '--tier', tier, '--seed', str(seed), '--out', out]
@@ -59,7 +60,7 @@ def run_native(prop, tier, seed):
 
 
 def write_replay(prop, name, payload, code=None):
-    d = os.path.join(HERE, 'evidence', 'replay')
+    d = os.path.join(EVID, 'replay')
     os.makedirs(d, exist_ok=True)
     safe = ''.join(c if c.isalnum() or c in '._-' else '_' for c in name)[:120]
     p = os.path.join(d, f'{prop}-{safe}.json')
@@ -74,7 +75,7 @@ def write_replay(prop, name, payload, code=None):
 def run_check(prop, tier, only=None, jobs=None, native=True, proof=True, verbose=False):
     t0 = time.time()
     seed = int(os.environ.get('VERIF_SEED', '0') or 0)
-    known = [k for k in load_known() if k['property'] == prop]
+    known = [k for k in load_known() if prop in k.get('properties', [k['property']])]
     open_findings = {k['id']: k for k in known if k.get('status', 'open') == 'open'}
     baseline = load_baseline(prop)
     results = []
@@ -196,14 +197,16 @@ def run_check(prop, tier, only=None, jobs=None, native=True, proof=True, verbose
         tail = '' if nat_fail else ' no-failing-input-found'
         lines.append(f"VIOLATION property={prop} replay={p}{tail}")
         rc = 1
-    for u in undecided:
+    if len(undecided) > 8:
+        lines.append(f"NOTE {len(undecided)} obligations undecided; the first 8 are listed, all are in the evidence file")
+    for u in undecided[:8]:
         ob, r = u['ob'], u['harness']
         # an undischarged obligation is *undecided*, never a violation by itself (DESIGN 3.1/3.3): the bounded run-time contracts searched for a
         # failing input; if they found one it is reported above (with replay) and the obligation is attached to it, otherwise exit 2.
         was = ' (discharged on the unchanged tree)' if ob['name'] in baseline_dis else ''
         lines.append(f"UNDECIDED property={prop} obligation={ob['name']} solver={ob['status']} ({ob.get('reason')}){was}")
-        if rc != 1:
-            rc = 2
+    if undecided and rc != 1:
+        rc = 2
     if missing and rc == 0:
         errors.append(f"{len(missing)} baseline obligations were not generated, e.g. {missing[:3]}")
     if errors:
@@ -247,8 +250,8 @@ def run_check(prop, tier, only=None, jobs=None, native=True, proof=True, verbose
         'wall_s': round(wall, 2),
         'violations': sum(1 for l in lines if l.startswith('VIOLATION')),
     }
-    os.makedirs(os.path.join(HERE, 'evidence'), exist_ok=True)
-    json.dump(ev, open(os.path.join(HERE, 'evidence', f'{prop}.json'), 'w'), indent=1, default=str)
+    os.makedirs(EVID, exist_ok=True)
+    json.dump(ev, open(os.path.join(EVID, f'{prop}.json'), 'w'), indent=1, default=str)
     print(f"{prop} {tier}: obligations={n_obl} discharged={n_dis} undecided={len(undecided)} refuted={len(violations)} "
           f"out_of_reach={len(out_of_reach)} bounded_cases={bounded_cases} native_failures={len(nat_fail)} known={len(known_hit)} wall={wall:.1f}s rc={rc}")
     if verbose:
